@@ -109,6 +109,59 @@ def fillPlane (s : Ssd) (plane : Nat) (v : UInt8) : Ssd :=
   if plane = 0 then { s with bw := a, epis := ep :: s.epis }
   else { s with red := a, epis := ep :: s.epis }
 
+/-- a register (non-RAM-data) command on an awake controller, after it was logged -/
+def regStep (cmd : UInt8) (ps : List UInt8) (s : Ssd) : Ssd :=
+  if cmd = 0x12 then s.resetRegs
+  else if cmd = 0x11 then
+    match ps with
+    | [m] => { s with entry := m.toNat % 4, unsupported := s.unsupported || m.toNat % 8 ≥ 4 }
+    | _ => s
+  else if cmd = 0x44 then
+    match s.xPix, ps with
+    | false, [a, b] => { s with xs := a.toNat % 64, xe := b.toNat % 64 }
+    | true, [a, a', b, b'] => { s with xs := (word a a' % 1024) / 8, xe := (word b b' % 1024) / 8 }
+    | _, _ => s
+  else if cmd = 0x45 then
+    match ps with
+    | [a, a', b, b'] => { s with ys := word a a' % 1024, ye := word b b' % 1024 }
+    | _ => s
+  else if cmd = 0x4E then
+    match s.xPix, ps with
+    | false, [a] => { s with cx := a.toNat % 64 }
+    | true, [a, a'] => { s with cx := (word a a' % 1024) / 8 }
+    | _, _ => s
+  else if cmd = 0x4F then
+    match ps with
+    | [a, a'] => { s with cy := word a a' % 1024 }
+    | _ => s
+  else if cmd = 0x22 then
+    match ps with
+    | [v] => { s with uc2 := v }
+    | _ => s
+  else if cmd = 0x20 then
+    if s.uc2.toNat / 4 % 2 = 1 then
+      { s with refreshes := { asleep := false, initialised := s.initialised, powered := true }
+                             :: s.refreshes }
+    else s
+  else if cmd = 0x46 then
+    match ps with
+    | [v] => s.fillPlane 1 (if v.toNat ≥ 128 then 0xFF else 0x00)
+    | _ => s
+  else if cmd = 0x47 then
+    match ps with
+    | [v] => s.fillPlane 0 (if v.toNat ≥ 128 then 0xFF else 0x00)
+    | _ => s
+  else if cmd = 0x10 then
+    match ps with
+    | [m] => if m.toNat % 4 ≠ 0 then { s with asleep := true } else s
+    | _ => s
+  else if cmd = 0x07 then
+    -- the vendor's reference sequence for the 3.7in panel ends with the UC-style deep sleep
+    match ps with
+    | [v] => if v = 0xA5 then { s with asleep := true } else s
+    | _ => s
+  else s
+
 def feed (s : Ssd) : Blk → Ssd
   | .rst => { s.resetRegs with asleep := false, initialised := false, resetSeen := true }
   | .stray _ => s
@@ -124,57 +177,7 @@ def feed (s : Ssd) : Blk → Ssd
       { r.1 with epis := { plane, count := ps.length, stored := r.2, startAtOrigin := s.atOrigin,
                            win := (s.xs * 8, s.ys, s.xe * 8 + 7, s.ye) } :: s.epis }
     else
-    let s := { s with regs := (cmd, ps) :: s.regs }
-    if cmd = 0x12 then s.resetRegs
-    else if cmd = 0x11 then
-      match ps with
-      | [m] => { s with entry := m.toNat % 4, unsupported := s.unsupported || m.toNat % 8 ≥ 4 }
-      | _ => s
-    else if cmd = 0x44 then
-      match s.xPix, ps with
-      | false, [a, b] => { s with xs := a.toNat % 64, xe := b.toNat % 64 }
-      | true, [a, a', b, b'] => { s with xs := (word a a' % 1024) / 8, xe := (word b b' % 1024) / 8 }
-      | _, _ => s
-    else if cmd = 0x45 then
-      match ps with
-      | [a, a', b, b'] => { s with ys := word a a' % 1024, ye := word b b' % 1024 }
-      | _ => s
-    else if cmd = 0x4E then
-      match s.xPix, ps with
-      | false, [a] => { s with cx := a.toNat % 64 }
-      | true, [a, a'] => { s with cx := (word a a' % 1024) / 8 }
-      | _, _ => s
-    else if cmd = 0x4F then
-      match ps with
-      | [a, a'] => { s with cy := word a a' % 1024 }
-      | _ => s
-    else if cmd = 0x22 then
-      match ps with
-      | [v] => { s with uc2 := v }
-      | _ => s
-    else if cmd = 0x20 then
-      if s.uc2.toNat / 4 % 2 = 1 then
-        { s with refreshes := { asleep := false, initialised := s.initialised, powered := true }
-                               :: s.refreshes }
-      else s
-    else if cmd = 0x46 then
-      match ps with
-      | [v] => s.fillPlane 1 (if v.toNat ≥ 128 then 0xFF else 0x00)
-      | _ => s
-    else if cmd = 0x47 then
-      match ps with
-      | [v] => s.fillPlane 0 (if v.toNat ≥ 128 then 0xFF else 0x00)
-      | _ => s
-    else if cmd = 0x10 then
-      match ps with
-      | [m] => if m.toNat % 4 ≠ 0 then { s with asleep := true } else s
-      | _ => s
-    else if cmd = 0x07 then
-      -- the vendor's reference sequence for the 3.7in panel ends with the UC-style deep sleep
-      match ps with
-      | [v] => if v = 0xA5 then { s with asleep := true } else s
-      | _ => s
-    else s
+    regStep cmd ps { s with regs := (cmd, ps) :: s.regs }
 
 /-- end of a driver operation: a reset issued inside an operation that completed counts as
     followed up by that operation's own (re-)initialisation (DESIGN, C09) -/
